@@ -601,6 +601,10 @@ var instTargets = []instTarget{
 	// Function object that is the initial value of Date.prototype.toUTCString" (the comparison is
 	// turned into an object so that the same probe reports it)
 	{ID: "same-function:toGMTString=toUTCString", Expr: `(Date.prototype.toGMTString===Date.prototype.toUTCString ? {identical:1} : {distinct:1})`, Want: "identical", Class: "Object", Proto: "Object.prototype"},
+	// 15.3.4.2: the text of every script function has the syntax of a function; 15.3.5 / clause 15: every function
+	// object has Function.prototype as its [[Prototype]] (the internal getter of f.caller included)
+	{ID: "accessor-function-text", Expr: `(function(){ var d = Object.getOwnPropertyDescriptor({get a(){ return 1 }, set a(v){}}, "a"); return (String(d.get).indexOf("function") === 0 && String(d.set).indexOf("function") === 0) ? {text:1} : {empty:1} })()`, Want: "text", Class: "Object", Proto: "Object.prototype"},
+	{ID: "caller-getter-prototype", Expr: `(function(){ var bad = 0, fs = [function(){}, Math.max, Object.getOwnPropertyDescriptor(new Error("x"), "stack").get]; for (var i = 0; i < fs.length; i++) { var f = fs[i]; for (var hop = 0; f && hop < 3; hop++) { if (Object.getPrototypeOf(f) !== Function.prototype || !(f instanceof Function)) bad++; var d = Object.getOwnPropertyDescriptor(f, "caller"); f = d && d.get } } return bad ? {unlinked:1} : {linked:1} })()`, Want: "linked", Class: "Object", Proto: "Object.prototype"},
 	{ID: "keys-result", Expr: `Object.keys({a:1})`, Want: "0,length", Class: "Array", Proto: "Array.prototype"},
 }
 
